@@ -8,6 +8,7 @@ package symx
 
 import (
 	"fmt"
+	"go/token"
 	"go/types"
 	"strings"
 
@@ -40,6 +41,7 @@ type CEvent struct {
 	Err      string
 	Ret      string
 	HasErr   bool   // return: the function has an error result
+	Line     int    // source line of a blocking operation (recv, sel, wait) in the generated file
 	Site     string // structural description of the site, for finding signatures
 	Decision bool   // this event consumed a decision (its outcome is in Choice/Failed)
 }
@@ -262,6 +264,13 @@ func (x *Extractor) rec(ps *PathState, ev CEvent) *CEvent {
 	return &x.cur.events[len(x.cur.events)-1]
 }
 
+func (x *Extractor) lineOf(pos token.Pos) int {
+	if !pos.IsValid() {
+		return 0
+	}
+	return x.E.Prog.Fset.Position(pos).Line
+}
+
 func (x *Extractor) chanRef(v value) ChanRef {
 	switch c := v.(type) {
 	case *chanObj:
@@ -315,7 +324,7 @@ func (x *Extractor) install() {
 			return &chanObj{id: id}, true
 		},
 		Recv: func(ps *PathState, fr *frame, instr *ssa.UnOp, ch value) (value, bool) {
-			x.rec(ps, CEvent{Kind: "recv", Chan: x.chanRef(ch), Site: x.siteOf() + ":plain-receive"})
+			x.rec(ps, CEvent{Kind: "recv", Chan: x.chanRef(ch), Site: x.siteOf() + ":plain-receive", Line: x.lineOf(instr.Pos())})
 			z := zero(instr.X.Type().Underlying().(*types.Chan).Elem())
 			if instr.CommaOk {
 				return tuple{z, false}, true
@@ -339,7 +348,7 @@ func (x *Extractor) install() {
 					watch = ch.ID + "-ctx"
 				}
 			}
-			ev := x.rec(ps, CEvent{Kind: "sel", Chans: chans, Decision: true, Site: x.siteOf() + ":select-watching-" + watch})
+			ev := x.rec(ps, CEvent{Kind: "sel", Chans: chans, Decision: true, Site: x.siteOf() + ":select-watching-" + watch, Line: x.lineOf(instr.Pos())})
 			c := ps.Choice(len(chans), "sel")
 			ev.Choice = c
 			x.cur.lastSel = ev
@@ -553,7 +562,7 @@ func (x *Extractor) install() {
 		return nil
 	}
 	e.Intercepts["(*"+eg+".Group).Wait"] = func(ps *PathState, fr *frame, fn *ssa.Function, args []value) value {
-		ev := x.rec(ps, CEvent{Kind: "wait", Decision: true, Site: x.siteOf()})
+		ev := x.rec(ps, CEvent{Kind: "wait", Decision: true, Site: x.siteOf(), Line: x.lineOf(ps.interp.callpos)})
 		werr := "werr_" + ev.Key
 		ev.Err = werr
 		c := ps.Choice(2, "werr")
